@@ -54,7 +54,7 @@ def shards(tier, seed):
 
 
 def gen_case(rng, kind):
-    n = int(rng.choice([1, 2, 3, 4, 6, 10, 17, 30]))
+    n = int(rng.choice([1, 2, 3, 4, 6, 10, 17, 30, 30]))
     sc = int(rng.choice([1, 4]))
     els = [gg.transform(gg.rand_element(rng, kind, 5), kind, sc, int(rng.integers(0, 40)) * sc,
                         int(rng.integers(0, 40)) * sc) for _ in range(n)]
@@ -72,8 +72,9 @@ def gen_case(rng, kind):
     spec = gf.frame_spec(rng, cols, n, "default")
     spec["geometry"] = "g1"
     k = int(rng.integers(1, 17)) if rng.random() < 0.5 else int(rng.integers(1, max(2, n // 2) + 1))
-    return {"spec": spec, "kind": kind, "npin": int(rng.integers(1, 5)), "npartitions": k,
-            "p": int(rng.choice([2, 6, 10, 15])), "mode": MODES[int(rng.integers(3))],
+    npin = int(rng.integers(1, 5)) if (n < 13 or rng.random() < 0.6) else int(rng.choice([11, 12, 13]))
+    return {"spec": spec, "kind": kind, "npin": npin, "npartitions": k if npin < 11 else int(rng.integers(1, 4)),
+            "p": int(rng.choice([2, 6, 10, 15, 17, 20])), "mode": MODES[int(rng.integers(3))],
             "compression": ["snappy", "gzip", None][int(rng.integers(3))],
             "previous": [None, None, "larger", "smaller"][int(rng.integers(4))],
             "seed": int(rng.integers(2 ** 31))}
@@ -107,6 +108,9 @@ def check_rows(ctx, viol, frame, where, src, act, kind, p, w, case):
              len(src), {"rows": len(frame), "lost": lost, "extra": extra})
         return False
     idx = frame.index.tolist()
+    if idx and (min(idx) < 0 or max(idx) >= 4 ** p):
+        viol("index", f"pack_to_parquet:{where}:index-outside-curve-range", [0, 4 ** p - 1],
+             [int(min(idx)), int(max(idx))])
     if any(a > b for a, b in zip(idx, idx[1:])):
         viol("order", f"pack_to_parquet:{where}:not-hilbert-ordered", "non-decreasing", idx[:40])
     if tb[0] == tb[0] and tb[1] == tb[1]:
